@@ -28,13 +28,13 @@ CONSTANTS N,        \* number of states
           D,        \* common row sum of A (C07)
           Chains,   \* {} : every irreducible A in scope; else an explicit set of matrices
           Lags,     \* set of lag times <<num, den>> used by the mfpt modes
-          Modes,    \* subset of {"committor", "mfpt_sinks", "mfpt_all"}
-          Part, Parts,  \* emission is split over Parts processes; this one takes Part (0-based)
+          Modes,    \* subset of {"committor", "mfpt_sinks", "mfpt_all"}  ("flux": see Flux.tla)
+          Part, Parts,  \* the chains are split over Parts TLC processes; this one takes Part (0-based)
           Emit      \* TRUE: print every final state as a CASE line
 
 VARIABLES A, den,          \* the chain
           src, snk,        \* source / sink sets (src = {} in the mfpt modes)
-          lag,             \* <<num, den>>
+          lag,             \* <<num, den>>; <<1, 1>> until the last step of an mfpt mode draws it
           mode,
           pc,
           R,               \* committors: right-hand sides, N x |snk| integers (scaled by den[i])
@@ -92,7 +92,12 @@ RECURSIVE ReachN(_, _, _)
 ReachN(a, S, k) == IF k = 0 THEN S ELSE ReachN(a, Succ(a, S), k - 1)
 Irreducible(a) == \A i \in Idx : ReachN(a, {i}, N - 1) = Idx
 
-PartOf(a) == SumTo(V([i \in Idx |-> SumTo(V([j \in Idx |-> (3 * i + j) * a[i][j]]), N)]), N) % Parts
+(* a positional hash of the matrix (Horner, base 31, modulo a prime) spreads the chains *)
+(* evenly over the Parts processes                                                       *)
+RECURSIVE HornerTo(_, _)
+HornerTo(a, k) == IF k = 0 THEN 7
+                  ELSE (HornerTo(a, k - 1) * 31 + a[((k - 1) \div N) + 1][((k - 1) % N) + 1]) % 1000003
+PartOf(a) == HornerTo(a, N * N) % Parts
 
 Absorbing == IF mode = "mfpt_sinks" THEN snk ELSE src \cup snk
 
@@ -170,7 +175,7 @@ MDef1(S) == CramerOn(Idx \ S, den)
 
 (* the fundamental matrix written in terms of the first-step mfpts (pi Z = pi and  *)
 (* Z[i][j] = Z[j][j] - pi[j] M[i][j]); only used as the WITNESS for "Z is the        *)
-(* inverse of I - T + W", which MFPTAllInvert verifies before using it               *)
+(* inverse of I - T + W": FundamentalIsInverse checks K Z = I on the state after Invert *)
 ZWitness ==
   LET M1  == V([j \in Idx |-> MDef1({j})])                       \* M1[j][i]: i -> j
       zjj == V([j \in Idx |-> RMul(pi[j], RAdd(ROne, RSum(V([i \in Idx |-> RMul(pi[i], M1[j][i])]))))])
@@ -341,7 +346,7 @@ LagLinear     == HasM => LET m1 == MDef1(snk) IN \A i \in Idx : m[i] = RMul(lag,
 PiStationary == pc = "fund" =>
                   /\ RSum(pi) = ROne
                   /\ \A j \in Idx : RPos(pi[j])
-                  /\ \A j \in Idx : REq(pi[j], RSum([i \in Idx |-> RMul(pi[i], Rat(A[i][j], den[i]))]))
+                  /\ \A j \in Idx : REq(pi[j], RSum(V([i \in Idx |-> RMul(pi[i], Rat(A[i][j], den[i]))])))
 FundamentalIsInverse == pc = "formula" => IsInverse(K, Z)
 (* column s of the all-pairs table = what the sink-set branch computes for {s}:
    lag * Solve(mask({s}), ones off s) -- and that satisfies the first-step equations *)
@@ -356,7 +361,6 @@ AllPairsFirstStep == HasAll =>
                           RAdd(RScale(den[i], lag), RDot(A[i], V([j \in Idx |-> mAll[j][s]]))))
 
 (* ---- emission for replay (direction A) ---------------------------------------------- *)
-Mat(X) == [i \in Idx |-> [j \in Idx |-> X[i][j]]]
 EmitInv == (Emit /\ pc = "done") =>
   PrintT(<<"CASE", ToJson([n |-> N, D |-> D, A |-> A, mode |-> mode,
                            src |-> SortedSeq(src), snk |-> SortedSeq(snk), lag |-> lag,
